@@ -435,7 +435,8 @@ def run_all(rep, prop, tier):
 # decorated chains and rings: every colouring of P_n / C_n over a small element alphabet
 # (refinement needs many rounds and information has to travel along the chain)
 # ----------------------------------------------------------------------------------------------
-CHAIN_COLOURS = [("C", None, None), ("H", None, None), ("N", None, None), ("O", None, None), ("C", 13, None), ("C", 14, 2)]
+CHAIN_COLOURS = [("C", None, None), ("H", None, None), ("N", None, None), ("O", None, None), ("C", 13, None), ("C", 14, 2),
+                 ("H", 2, None), ("O", 18, None), ("Cl", 37, 2)]
 
 
 def chain_jobs(tier):
@@ -543,6 +544,10 @@ def long_labelled_chain_jobs(tier):
             reps.append(tuple(cs))
         for c0 in range(0, len(reps), 40):
             jobs.append(("path", n, reps[c0:c0 + 40]))
+    # two labelled atoms of different elements separated by an element block of every size: D-(C)k-18O and
+    # D-(C)k-37Cl(rad): every difference between the two labelled canonical indices (collisions mod 8, 16, ...)
+    for k in range(1, (21 if tier == "quick" else 41)):
+        jobs.append(("path", k + 2, [tuple([6] + [0] * k + [7]), tuple([6] + [0] * k + [8])]))
     return jobs
 
 
